@@ -159,13 +159,50 @@ def extract():
     cts = ast.unparse(_method(cls, "async_connect_to_spa"))
     if "if self._spa_state == GeckoSpaState.SPA_READY:\n            self._facade = GeckoAsyncFacade(self._spa, self)" not in cts:
         raise Unsupported("facade construction guard changed")
-    return rules, shape[0]
+    return rules, shape[0], pump_shape(cls)
+
+
+def pump_shape(cls):
+    """the sequence pump: `while True` around the locate clause, the connect clause, optionally the not-found retry clause,
+    optionally all inside try / except Exception -> async_reset; then the poll sleep.  Returns (survives, retries_not_found)."""
+    m = _method(cls, "_sequence_pump")
+    outer = [x for x in m.body if isinstance(x, ast.Try)]
+    if len(outer) != 1:
+        raise Unsupported("pump: outer try")
+    loops = [x for x in outer[0].body if isinstance(x, ast.While)]
+    if len(loops) != 1 or ast.unparse(loops[0].test) != "True":
+        raise Unsupported("pump: while True")
+    body = list(loops[0].body)
+    if ast.unparse(body[-1]).strip() != "await asyncio.sleep(GeckoConstants.ASYNCIO_SLEEP_TIMEOUT_FOR_YIELD)":
+        raise Unsupported("pump: poll sleep")
+    body = body[:-1]
+    survives = False
+    if len(body) == 1 and isinstance(body[0], ast.Try):
+        t = body[0]
+        hs = {ast.unparse(h.type) if h.type is not None else "": [ast.unparse(x).strip() for x in h.body] for h in t.handlers}
+        if t.finalbody or t.orelse or set(hs) != {"asyncio.CancelledError", "Exception"} or hs["asyncio.CancelledError"] != ["raise"]:
+            raise Unsupported("pump: handlers %r" % hs)
+        if hs["Exception"][-1] != "await self.async_reset()" or any(not x.startswith("_LOGGER.") for x in hs["Exception"][:-1]):
+            raise Unsupported("pump: exception handler body %r" % hs["Exception"])
+        survives = True
+        body = list(t.body)
+    clauses = [ast.unparse(x).strip() for x in body]
+    locate = "if self.spa_state == GeckoSpaState.IDLE and self._spa_descriptors is None:\n    await self.async_locate_spas(self._spa_address)"
+    connect = ("if self.spa_state == GeckoSpaState.LOCATED_SPAS and self._spa_identifier is not None and (self._facade is None):\n"
+               "    await self.async_connect(self._spa_identifier, self._spa_address)")
+    retry = ("if self.spa_state == GeckoSpaState.ERROR_SPA_NOT_FOUND:\n    await config_sleep(GeckoConfig.DISCOVERY_TIMEOUT_IN_SECONDS)\n"
+             "    if self.spa_state == GeckoSpaState.ERROR_SPA_NOT_FOUND:\n        await self.async_reset()")
+    if clauses == [locate, connect]:
+        return survives, False
+    if clauses == [locate, connect, retry]:
+        return survives, True
+    raise Unsupported("pump: clauses %r" % clauses)
 
 
 def gen_lifecycle():
     from geckolib.spa_state import GeckoSpaState
     from geckolib.spa_events import GeckoSpaEvent
-    rules, reset_shape = extract()
+    rules, reset_shape, (survives, retries_nf) = extract()
     states = [s.name for s in GeckoSpaState]
     events = [e.name for e in GeckoSpaEvent]
     t = "(* GENERATED from /repo (async_spa_manager.py AST, spa_state.py, spa_events.py) by tools/gen_lifecycle.py - do not edit *)\n"
@@ -183,12 +220,16 @@ def gen_lifecycle():
     t += "Definition rules : list (list event * guard * list action) := [\n" + ";\n".join("  ([%s], %s, [%s])" % ("; ".join(ev), g, "; ".join(ac)) for ev, g, ac in rules) + "\n].\n"
     t += "(* async_reset: true = self._facade is cleared only after the spa has been disconnected *)\n"
     t += "Definition reset_clears_facade_last : bool := %s.\n" % vf.cbool(reset_shape == "facade_cleared_last")
+    t += "(* _sequence_pump: an exception of a locate / connect attempt is caught, logged and followed by async_reset (else it ends the task) *)\n"
+    t += "Definition pump_survives : bool := %s.\n" % vf.cbool(survives)
+    t += "(* _sequence_pump: ERROR_SPA_NOT_FOUND is left by a reset after the discovery timeout (else it is terminal for the pump) *)\n"
+    t += "Definition pump_retries_not_found : bool := %s.\n" % vf.cbool(retries_nf)
     vf.write_if_changed(os.path.join(vf.GEN, "LifecycleRules.v"), t)
     return rules, reset_shape
 
 
 if __name__ == "__main__":
-    r, s = gen_lifecycle()
+    r, s = gen_lifecycle()[:2]
     for x in r:
         print(x)
     print(s)
